@@ -1,10 +1,16 @@
 (* C20 requests: 2000 model observation, 2001 property oracle, 2002 own-output shape instance.
    2002 [fmt; payload] -> [document assembled by the shape of spec/SpecOwn.v; hypotheses of the own-output theorem hold?]
         fmt 1 MicroDVD: payload [d1; d2; txt0; [[prefix; txt] ...]]     fmt 2 WebVTT: payload [piece ...]
-        fmt 4 SRT:      payload [[timing line; text] ...] (non-empty)    fmt 5 SCC:    payload body             *)
+        fmt 4 SRT:      payload [[timing line; text] ...] (non-empty)    fmt 5 SCC:    payload body
+        [0; pre; post] DFXP skeleton pre ++ "</tt>" ++ post             [3; rest] SAMI skeleton "<sami" ++ rest
+   2003 [fmt; [[ [start; end; [node ...]] ...] ...]]  node = [0; text] | [1] | [2; start?; italics; underline; bold]
+        -> [document written by the writer model of model/OwnWrite.v (fmt 1 MicroDVD, 2 WebVTT, 4 SRT);
+            caption set in the domain of the own-output theorem that starts from the text nodes (spec/SpecOwnNodes.v)?;
+            detect_format of the model on that document]                                                          *)
 From Coq Require Import List ZArith QArith Bool.
 From PV Require Import lib.Sx lib.Str lib.Result.
 From PV Require Import model.Generated model.Detect spec.SpecDetect spec.SpecOwn extract.OrCommon.
+From PV Require Import model.OwnWrite spec.SpecOwnNodes.
 Import ListNotations.
 Open Scope Z_scope.
 
@@ -50,6 +56,42 @@ Definition req_c20_shape (arg : sx) : sx :=
       | None => bad
       end
   | SL [SI 5; SS body] => SL [SS (scc_document body); of_bool (forallb scc_body_char body)]
+  | SL [SI 0; SS pre; SS post] => SL [SS (dfxp_document pre post); of_bool true]
+  | SL [SI 3; SS rest] => SL [SS (sami_document rest); of_bool (free before_sami (sami_document rest))]
+  | _ => bad
+  end.
+
+Definition sx_onode (x : sx) : option onode :=
+  match x with
+  | SL [SI 0; SS t] => Some (OText t)
+  | SL [SI 1] => Some OBreak
+  | SL [SI 2; st; i; u; b] =>
+      match sx_bool st, sx_bool i, sx_bool u, sx_bool b with
+      | Some st, Some i, Some u, Some b => Some (OStyle st i u b)
+      | _, _, _, _ => None
+      end
+  | _ => None
+  end.
+Definition sx_ocap (x : sx) : option ocap :=
+  match x with
+  | SL [SI s; SI e; ns] => match sx_listof sx_onode ns with Some l => Some (mk_ocap s e l) | None => None end
+  | _ => None
+  end.
+
+Definition req_c20_write (arg : sx) : sx :=
+  match arg with
+  | SL [SI fmt; langs] =>
+      match sx_listof (sx_listof sx_ocap) langs with
+      | Some ls =>
+          let out (doc : str) (dom : bool) := SL [SS doc; of_bool dom; of_result of_optz (detect_format doc)] in
+          match fmt with
+          | 1 => out (mdvd_write ls) (mdvd_dom ls)
+          | 2 => out (vtt_write ls) true
+          | 4 => out (srt_write ls) (srt_dom ls)
+          | _ => bad
+          end
+      | None => bad
+      end
   | _ => bad
   end.
 
@@ -58,5 +100,6 @@ Definition dispatch (code : Z) (arg : sx) : option sx :=
   | 2000 => Some (req_c20_model arg)
   | 2001 => Some (req_c20_ok arg)
   | 2002 => Some (req_c20_shape arg)
+  | 2003 => Some (req_c20_write arg)
   | _ => None
   end.
